@@ -258,9 +258,15 @@ type c14Env struct {
 
 	mu       sync.Mutex
 	gid      uint64
-	casMode  string // none | doc1 | doc2 | all
+	casMode  string // none | doc1 | doc2 | all | interfere
 	casKey   string
 	casFired int
+	// interfere mode: at attempts 1..raceK of the document write the compute->CAS window performs a complete,
+	// acknowledged concurrent write (nested request on the same goroutine) so that the CAS is really lost
+	raceK     int
+	raceFired int
+	interfere func(attempt int)
+	nested    bool
 }
 
 func c14RawDS(vs *vStore, name string) base.DataStore {
@@ -309,8 +315,20 @@ func c14NewEnv(t testing.TB, run *vlib.Run) *c14Env {
 func (e *c14Env) mid(op *base.VerifOp, actor string) error {
 	e.mu.Lock()
 	defer e.mu.Unlock()
-	if e.gid == 0 || op.Gid != e.gid || e.casMode == "" || e.casMode == "none" {
+	if e.gid == 0 || op.Gid != e.gid || e.nested || e.casMode == "" || e.casMode == "none" {
 		return nil
+	}
+	if e.casMode == "interfere" {
+		if op.Kind == "WriteUpdateWithXattrs.mid" && op.Key == e.casKey && op.Attempt <= e.raceK && e.interfere != nil {
+			fn := e.interfere
+			e.nested = true
+			e.mu.Unlock()
+			fn(op.Attempt)
+			e.mu.Lock()
+			e.nested = false
+			e.raceFired++
+		}
+		return nil // the compare-and-swap is lost for real: the store reports the mismatch
 	}
 	fire := false
 	switch e.casMode {
@@ -374,6 +392,9 @@ type c14Op struct {
 	Content int      // putatt
 	NewRev  string   // new_edits=false: the pushed revision id
 	Inter   []string // new_edits=false: intermediate (unknown to the server) revision ids, newest first
+	// Racers: concurrent pushes (oldest first) committed in the compute->CAS window of this push; racer j pushes the
+	// revision Inter[len-1-j] (child of the previous racer / of Parent), so this push is still valid when it is retried.
+	Racers []*c14Op
 }
 
 type c14Hist struct {
@@ -481,6 +502,9 @@ func (h *c14Hist) genOpRaw(d *c14Doc) *c14Op {
 		for i := range op.Inter {
 			op.Inter[i] = fmt.Sprintf("%d-%s", leaf.Gen+k-i, op.Inter[i])
 		}
+		if leaf.ID == w.ID && r.Chance(45, 100) {
+			h.makeRaced(op, r.Range(1, 2), h.genActions(leaf, true, true), h.genActions(nil, false, false))
+		}
 	case x < 60:
 		op = &c14Op{Kind: "putatt", Doc: d, Parent: leaf, Name: vlib.Pick(r, c14Names), Content: r.Intn(len(h.cs))}
 	case x < 68:
@@ -508,6 +532,26 @@ func (h *c14Hist) genOpRaw(d *c14Doc) *c14Op {
 	}
 	op.Role = h.role(d, op.Parent)
 	return op
+}
+
+// makeRaced turns a push onto leaf op.Parent into a push that loses its compare-and-swap k times to concurrent,
+// acknowledged pushes of the revisions in between (the pushed history names them, so the retried push is still
+// valid). The first concurrent push may repeat the leaf's attachments as stubs; the others and the push itself
+// carry inline data only (the revision they build on is not on the server when the client composes them).
+func (h *c14Hist) makeRaced(op *c14Op, k int, first, own map[string]c14Action) {
+	op.Kind = "update-ne"
+	h.setPushedRev(op, k)
+	op.Actions = own
+	op.Racers = nil
+	for j := 0; j < k; j++ {
+		rc := &c14Op{Kind: "update-ne", Doc: op.Doc, NewRev: op.Inter[k-1-j]}
+		if j == 0 {
+			rc.Actions = first
+		} else {
+			rc.Actions = h.genActions(nil, false, true)
+		}
+		op.Racers = append(op.Racers, rc)
+	}
 }
 
 // predict: outcome of the write for the winner. "unknown" when it depends on a revision id the server makes up.
@@ -664,13 +708,12 @@ func (h *c14Hist) revisionsJSON(op *c14Op) map[string]any {
 }
 
 // execute performs the write, updates the model, returns false if the server refused a write the model allows.
-func (h *c14Hist) execute(step int, op *c14Op) bool {
-	e := h.e
+// build: the request of a write.
+func (h *c14Hist) build(step int, op *c14Op, tag string) (method, path, body, witBody string, hdr map[string]string) {
 	d := op.Doc
-	marker := fmt.Sprintf("h%ds%d", h.idx, step)
+	marker := fmt.Sprintf("h%ds%d%s", h.idx, step, tag)
 	ks := "/{{.keyspace}}/"
-	var method, path, body, witBody string
-	hdr := map[string]string{}
+	hdr = map[string]string{}
 	mk := func(m map[string]any) string { b, _ := json.Marshal(m); return string(b) }
 	switch op.Kind {
 	case "create", "resurrect", "update":
@@ -705,6 +748,14 @@ func (h *c14Hist) execute(step int, op *c14Op) bool {
 		method, path = "DELETE", ks+d.ID+"/"+op.Name+"?rev="+op.Parent.ID
 	}
 
+	return
+}
+
+func (h *c14Hist) execute(step int, op *c14Op) bool {
+	e := h.e
+	d := op.Doc
+	method, path, body, witBody, hdr := h.build(step, op, "")
+
 	predicted := "wins"
 	if op.Parent != nil {
 		predicted = h.predict(op)
@@ -714,6 +765,8 @@ func (h *c14Hist) execute(step int, op *c14Op) bool {
 	// forced CAS retries for this write
 	cas := "none"
 	switch x := h.r.Intn(100); {
+	case len(op.Racers) > 0:
+		cas = "interfere"
 	case h.noCas:
 	case x < 25:
 		cas = "doc1"
@@ -722,16 +775,57 @@ func (h *c14Hist) execute(step int, op *c14Op) bool {
 	case x < 40:
 		cas = "all"
 	}
+	racersOK := true
 	e.mu.Lock()
-	e.casMode, e.casKey, e.casFired = cas, d.ID, 0
+	e.casMode, e.casKey, e.casFired, e.raceK, e.raceFired, e.interfere = cas, d.ID, 0, len(op.Racers), 0, nil
+	if cas == "interfere" {
+		// racer j is committed, acknowledged and entered into the model while this push sits between compute and CAS
+		e.interfere = func(attempt int) {
+			if attempt < 1 || attempt > len(op.Racers) || !racersOK {
+				return
+			}
+			rc := op.Racers[attempt-1]
+			rc.Parent = op.Parent
+			if attempt > 1 {
+				rc.Parent = d.Revs[op.Racers[attempt-2].NewRev]
+			}
+			rc.Role = h.role(d, rc.Parent)
+			m, p, b, wb, hd := h.build(step, rc, fmt.Sprintf("r%d", attempt))
+			rr := e.req(m, p, b, hd)
+			if !h.apply(step, rc, rr, m, p, wb, fmt.Sprintf("concurrent write %d committed in the compute->CAS window of the next entry", attempt), 0) {
+				racersOK = false
+			}
+		}
+	}
 	e.mu.Unlock()
 	e.vs.ResetLog()
 	resp := e.req(method, path, body, hdr)
 	e.mu.Lock()
 	fired := e.casFired
-	e.casMode = "none"
+	raced := e.raceFired
+	e.casMode, e.interfere = "none", nil
 	e.mu.Unlock()
 	h.lastCas = "none"
+	if cas == "interfere" {
+		h.lastCas = "lost-to-concurrent-write"
+		e.run.Count("writes_that_lost_the_cas_to_a_concurrent_acknowledged_write", 1)
+		e.run.Count("concurrent_writes_committed_in_the_compute_cas_window", raced)
+		attempts := 0
+		for _, lo := range e.vs.Log() {
+			if lo.Kind == "WriteUpdateWithXattrs" && lo.Key == d.ID && lo.Gid == e.gid && lo.Attempt > attempts {
+				attempts = lo.Attempt
+			}
+		}
+		if raced != len(op.Racers) || attempts != len(op.Racers)+1 {
+			e.run.Note("raced push: %d of %d concurrent writes committed, %d attempts of the document write", raced, len(op.Racers), attempts)
+			e.run.Count("raced_writes_that_did_not_retry_as_planned", 1)
+		} else {
+			e.run.Count("raced_writes_retried_as_planned", 1)
+		}
+		if !racersOK {
+			return false
+		}
+	}
 	if fired > 0 {
 		h.lastCas = "forced-retry"
 		h.stats.retried++
@@ -749,6 +843,17 @@ func (h *c14Hist) execute(step int, op *c14Op) bool {
 	}
 	e.vs.ResetLog()
 
+	return h.apply(step, op, resp, method, path, witBody, cas, fired)
+}
+
+// apply: judge the response of a write and update the model.
+func (h *c14Hist) apply(step int, op *c14Op, resp c14Resp, method, path, witBody, cas string, fired int) bool {
+	e := h.e
+	d := op.Doc
+	predicted := "wins"
+	if op.Parent != nil {
+		predicted = h.predict(op)
+	}
 	var pr struct {
 		Rev string `json:"rev"`
 	}
@@ -817,7 +922,9 @@ func (h *c14Hist) execute(step int, op *c14Op) bool {
 		}
 		// intermediates, oldest first
 		for i := len(op.Inter) - 1; i >= 0; i-- {
-			d.add(op.Inter[i], parentID, false, true, nil)
+			if d.Revs[op.Inter[i]] == nil { // not committed by a concurrent push in the meantime
+				d.add(op.Inter[i], parentID, false, true, nil)
+			}
 			parentID = op.Inter[i]
 		}
 	}
@@ -833,7 +940,11 @@ func (h *c14Hist) execute(step int, op *c14Op) bool {
 			outcome = "wins"
 		}
 	}
-	h.lastShape, h.lastHazard = op.Kind+"@"+op.Role+":"+outcome, c14Hazard(outcome)
+	kind := op.Kind
+	if len(op.Racers) > 0 {
+		kind = fmt.Sprintf("%s-retried-after-%d-concurrent-push", op.Kind, len(op.Racers))
+	}
+	h.lastShape, h.lastHazard = kind+"@"+op.Role+":"+outcome, c14Hazard(outcome)
 	entry["outcome"] = outcome
 	e.run.Count("writes_by_shape."+h.lastShape, 1)
 	if h.lastHazard != "" {
